@@ -40,17 +40,19 @@ PROBE = "local e = {}\nfunction e.f(frame) return 'probe-ok' end\nfunction e.g(f
 
 
 def floors(tier):
-    return {"oracle.scan-complete": 3, "counters.scan.nodes": 1000, "counters.scan.python-objects": 20, "counters.scan.capability-calls": 100,
-            "counters.scan.forbidden-identities": 75, "oracle.attack-canaries-checked": 20}
+    return {"oracle.scan-complete": 12, "counters.scan.nodes": 4000, "counters.scan.python-objects": 100, "counters.scan.capability-calls": 1000,
+            "counters.scan.forbidden-identities": 300, "oracle.attack-canaries-checked": 30, "anchors.luaexec.call_set_functions": 10}
 
 
 def shards(tier, seed):
-    n = {"quick": 4, "thorough": 16}[tier]
+    n = {"quick": 16, "thorough": 64}[tier]
     out = []
+    langs = ["en", "en", "fr", "de", "zh", "ru", "es", "ja"]
+    shapes = ["top", "template", "nested"]
     for i in range(n):
-        out.append({"seed": seed * 1000 + i, "idx": i, "history": 0 if i < 2 else (40 if tier == "quick" else 200),
-                    "lang": ["en", "en", "fr", "de", "zh", "ru", "es", "en"][i % 8], "shape": ["top", "template", "nested", "top"][i % 4],
-                    "attacks": i == 0 or tier == "thorough"})
+        hist = [0, 0, 20, 60][i % 4] if tier == "quick" else [0, 50, 200, 400][i % 4]
+        out.append({"seed": seed * 1000 + i, "idx": i, "history": hist, "lang": langs[(i // 2) % len(langs)], "shape": shapes[i % 3],
+                    "attacks": i == 0 or (tier == "thorough" and i % 16 == 0)})
     return out
 
 
@@ -426,8 +428,13 @@ def run_attacks(spec, obs):
 
 
 def run_shard(spec):
+    import wikitextprocessor.luaexec as lx
+    from vf.core import anchors
     obs = Obs()
     rng = random.Random(spec["seed"])
+    anchors.watch({"luaexec.initialize_lua": lx.initialize_lua, "luaexec.call_set_functions": lx.call_set_functions,
+                   "luaexec.call_lua_sandbox": lx.call_lua_sandbox, "luaexec.lua_loader": lx.lua_loader,
+                   "luaexec.make_frame": (lx.call_lua_sandbox, "make_frame")})
     cap = Capture(spec["lang"])
     ctx = cap.ctx
     # history: benign + hostile invocations accumulate state in the caches before the scan
@@ -466,6 +473,7 @@ def run_shard(spec):
     if spec["attacks"]:
         run_attacks(spec, obs)
     cap.close()
+    obs.anchors.update(anchors.snapshot())
     return obs
 
 
